@@ -338,7 +338,7 @@ Proof.
     assert (Ag: agree_on G s s) by (intros x _; reflexivity).
     specialize (CE _ s Hin Ag (Forall_nil _)). simpl fst in CE. rewrite !lit_sat_sym in CE.
     unfold sym_atom_sat in CE. rewrite eval_fun, Ev in CE. exact CE.
-  - intros All. split; [|split; apply choice_agg_holds; exact Safe].
+  - intros All. split; [|apply choice_agg_holds; exact Safe].
     intros e th Hin Ag _.
     destruct (simple_choice_elem_inv e (Simple e Hin)) as [n [args [ext ->]]]. simpl fst.
     rewrite !lit_sat_sym. unfold sym_atom_sat. rewrite eval_fun.
@@ -673,7 +673,7 @@ Qed.
 
 Lemma unsafe_choice_unsat sym_lt : ~ Sat.stmt_sat sym_lt all_p all_p unsafe_choice.
 Proof.
-  intros RS. destruct (RS (fun _ => SInf)) as [_ A]. destruct (A (Forall_nil _)) as [_ [_ [v [[l [[ND E] _]] _]]]].
+  intros RS. destruct (RS (fun _ => SInf)) as [_ A]. destruct (A (Forall_nil _)) as [_ [v [[l [[ND E] _]] _]]].
   set (f := fun k : nat => [SFun "p" [SNum (Z.of_nat k)] true]).
   assert (Incl: incl (map f (seq 0 (S (List.length l)))) l).
   { intros tv Htv. apply in_map_iff in Htv. destruct Htv as [k [<- _]]. apply E.
